@@ -19,8 +19,10 @@ import (
 	"github.com/atlassian/escalator/pkg/k8s"
 	"github.com/stephanos/clock"
 	v1 "k8s.io/api/core/v1"
+	apierrors "k8s.io/apimachinery/pkg/api/errors"
 	"k8s.io/apimachinery/pkg/api/resource"
 	metav1 "k8s.io/apimachinery/pkg/apis/meta/v1"
+	"k8s.io/apimachinery/pkg/runtime/schema"
 	"k8s.io/apimachinery/pkg/labels"
 	"k8s.io/client-go/kubernetes"
 	corev1 "k8s.io/client-go/kubernetes/typed/core/v1"
@@ -90,12 +92,13 @@ type vWorld struct {
 	memPerNode int64
 	minTaintAge int64 // most negative taint age (seconds): a taint time in the future
 	symPodMem   bool  // pod memory requests symbolic (memory-bound workloads)
+	typedAPIErrors bool // injected Kubernetes failures may be typed (NotFound / Conflict)
 }
 
 func newWorld(failBudget int) *vWorld {
 	j := &aws.VerifJournal{FailBudget: failBudget}
 	as := &aws.VerifAutoScaling{J: j}
-	w := &vWorld{J: j, AS: as, base: verifNowUnix(), cpuPerNode: 4000, memPerNode: 16 << 30, minTaintAge: -60}
+	w := &vWorld{J: j, AS: as, base: verifNowUnix(), cpuPerNode: 4000, memPerNode: 16 << 30, minTaintAge: -60, typedAPIErrors: failBudget > 0}
 	w.EC2 = &aws.VerifEC2{J: j, AS: as, FleetSize: -1, ReadyAfter: 1, LaunchUnix: w.base - 600}
 	return w
 }
@@ -288,11 +291,20 @@ func hasTaintKey(n *v1.Node, key string) bool {
 	return false
 }
 
+// apiError picks the kind of an injected Kubernetes API failure: a plain error or
+// the typed error a real API server returns.
+func (w *vWorld) apiError(api, name string, typed *apierrors.StatusError) error {
+	if w.typedAPIErrors && verifChoice("errkind_"+strconv.Itoa(w.J.Seq)+"_"+api, 2) == 1 {
+		return typed
+	}
+	return errors.New("injected " + api + " failure")
+}
+
 func (s *vNodes) Get(ctx context.Context, name string, opts metav1.GetOptions) (*v1.Node, error) {
 	c := aws.VerifCall{Kind: "NodeGet", Node: name}
 	if s.w.J.Fail("NodeGet") {
 		s.w.J.Calls = append(s.w.J.Calls, c)
-		return nil, errors.New("injected node get failure")
+		return nil, s.w.apiError("NodeGet", name, apierrors.NewNotFound(schema.GroupResource{Resource: "nodes"}, name))
 	}
 	n := s.w.find(name)
 	if n == nil {
@@ -319,7 +331,7 @@ func (s *vNodes) Update(ctx context.Context, node *v1.Node, opts metav1.UpdateOp
 	}
 	if s.w.J.Fail("NodeUpdate") {
 		s.w.J.Calls = append(s.w.J.Calls, c)
-		return nil, errors.New("injected node update failure")
+		return nil, s.w.apiError("NodeUpdate", node.Name, apierrors.NewConflict(schema.GroupResource{Resource: "nodes"}, node.Name, errors.New("the object has been modified")))
 	}
 	if n == nil {
 		s.w.J.Calls = append(s.w.J.Calls, c)
